@@ -224,6 +224,8 @@ def gen_prim_labels(rng, big=False, base=None):
     c["labelling"] = "pool"
     c["label_ids"] = [[i, k] for i, k in zip(ids, picks)]
     c["pool_variant"] = [rng.randrange(4), rng.randrange(3)]
+    if rng.random() < 0.3:
+        c["pool_spelling"] = "per-occurrence"
     c["adj_kind"] = rng.choice(ADJ_KINDS)
     c["tuple_adj"] = False
     lab = dict((i, k) for i, k in c["label_ids"])
@@ -246,7 +248,7 @@ def gen_prim_iterables(rng, big=False):
     return c
 
 
-MAGNITUDES = ["2^31", "1e9", "2^53", "2^60", "1e18", "mix44", "tiny-diff", "dyadic", "float-huge"]
+MAGNITUDES = ["2^31", "2^31", "1e9", "1e9", "mix44", "mix44", "tiny-diff", "tiny-diff", "dyadic", "dyadic", "2^53", "2^60", "1e18", "float-huge"]
 
 
 def magnify(rng, edges, mode):
@@ -461,6 +463,393 @@ def directed_cases(rng, big, want):
     return out
 
 
+# ---------------------------------------------------------------- round-3 families (HARDENING.md addendum: A2, X, W)
+def gen_kruskal_seq(rng, big=False):
+    """class A2: kruskal on ONE list object that the caller edits in place between the calls (replace an element by another
+    tuple, change a weight inside a 3-element list, pop+append, insert, swap, reverse, clear+refill), with prim and the
+    other allow_forest called in between.  Every call is judged on the content the list has at that moment."""
+    c = gen_kruskal(rng, big) if rng.random() < 0.75 else gen_kruskal_deep(rng, big)
+    c["edges_kind"] = rng.choice(["list", "list", "list_of_lists", "userlist"])
+    if rng.random() < 0.3:
+        c["float_w"] = "mixed"
+    n = c["n"]
+    cur = [list(e) for e in c["edges"]]
+    ops = []
+    for _ in range(rng.randint(1, 5)):
+        kinds = ["append", "af", "prim"] + (["set", "set", "set", "setw", "setw", "pop", "pop_append", "insert", "swap", "reverse", "refill"] if cur else [])
+        k = rng.choice(kinds)
+        i = rng.randrange(len(cur)) if cur else 0
+        wnew = rng.choice([-9, -1, 0, 1, 2, 7, 30])
+        enew = [rng.randrange(n), rng.randrange(n), wnew]
+        if k == "set":
+            op = ["set", i, [cur[i][0], cur[i][1], wnew] if rng.random() < 0.6 else enew]
+            cur[i] = op[2]
+        elif k == "setw":
+            op = ["setw", i, wnew]
+            cur[i] = [cur[i][0], cur[i][1], wnew]
+        elif k == "pop":
+            op = ["pop", i]
+            cur.pop(i)
+        elif k == "pop_append":
+            op = ["pop_append", i, enew]
+            cur.pop(i)
+            cur.append(enew)
+        elif k == "insert":
+            op = ["insert", i, enew]
+            cur.insert(i, enew)
+        elif k == "append":
+            op = ["append", enew]
+            cur.append(enew)
+        elif k == "swap":
+            j = rng.randrange(len(cur))
+            op = ["swap", i, j]
+            cur[i], cur[j] = cur[j], cur[i]
+        elif k == "reverse":
+            op = ["reverse"]
+            cur.reverse()
+        elif k == "refill":
+            new = [[rng.randrange(n), rng.randrange(n), rng.randint(-3, 5)] for _ in range(len(cur))]
+            op = ["refill", new]
+            cur = [list(e) for e in new]
+        else:
+            op = [k]
+        ops.append(op)
+    return dict(c, kind="kruskal_seq", ops=ops, tag="A2:kruskal")
+
+
+def apply_edge_op(obj, op, conv, lists, counter):
+    """Apply one in-place edit to the caller's edge container (and report the model-level edit to mirror)."""
+    mk = (lambda e: [e[0], e[1], conv(e[2], counter)]) if lists else (lambda e: (e[0], e[1], conv(e[2], counter)))
+    k = op[0]
+    if k == "set":
+        obj[op[1]] = mk(op[2])
+    elif k == "setw":
+        if lists:
+            obj[op[1]][2] = conv(op[2], counter)          # the element object stays, its weight changes
+        else:
+            obj[op[1]] = (obj[op[1]][0], obj[op[1]][1], conv(op[2], counter))
+    elif k == "pop":
+        obj.pop(op[1])
+    elif k == "pop_append":
+        obj.pop(op[1])
+        obj.append(mk(op[2]))
+    elif k == "insert":
+        obj.insert(op[1], mk(op[2]))
+    elif k == "append":
+        obj.append(mk(op[1]))
+    elif k == "swap":
+        obj[op[1]], obj[op[2]] = obj[op[2]], obj[op[1]]
+    elif k == "reverse":
+        obj.reverse()
+    elif k == "refill":
+        obj[:] = [mk(e) for e in op[1]]
+
+
+def mirror_edge_op(cur, op):
+    k = op[0]
+    if k == "set":
+        cur[op[1]] = list(op[2])
+    elif k == "setw":
+        cur[op[1]] = [cur[op[1]][0], cur[op[1]][1], op[2]]
+    elif k == "pop":
+        cur.pop(op[1])
+    elif k == "pop_append":
+        cur.pop(op[1])
+        cur.append(list(op[2]))
+    elif k == "insert":
+        cur.insert(op[1], list(op[2]))
+    elif k == "append":
+        cur.append(list(op[1]))
+    elif k == "swap":
+        cur[op[1]], cur[op[2]] = cur[op[2]], cur[op[1]]
+    elif k == "reverse":
+        cur.reverse()
+    elif k == "refill":
+        cur[:] = [list(e) for e in op[1]]
+
+
+def to_adjacency(n, edges):
+    g = {i: [] for i in range(n)}
+    for u, v, w in edges:
+        g[u].append((v, w))
+        if u != v:
+            g[v].append((u, w))
+    return g
+
+
+def run_kruskal_seq(case):
+    """-> list of (ordinary kruskal case describing the content at that moment, result of the call on the SHARED object)."""
+    from solvor.mst import kruskal, prim
+
+    conv = w_conv(case)
+    obj = build_edges(case)
+    lists = case.get("edges_kind") == "list_of_lists"
+    cur = [list(e) for e in case["edges"]]
+    af = case["allow_forest"]
+    out = []
+
+    snaps = []
+
+    def call(tag):
+        sub = {"kind": "kruskal", "n": case["n"], "edges": [list(e) for e in cur], "allow_forest": af, "float_w": case.get("float_w"),
+               "alias": False, "tag": case.get("tag"), "step": tag}
+        r = canon_result(kruskal(case["n"], obj, allow_forest=af, backend="python"), None, case)
+        r["alias"] = None
+        snaps.append((copy.deepcopy(obj), af, tag))     # the fresh-copy comparison runs AFTER the sequence: no foreign call in between
+        out.append((sub, {"out": "ok", **r}))
+
+    call("initial")
+    for k, op in enumerate(case["ops"]):
+        if op[0] == "af":
+            af = not af
+        elif op[0] == "prim":
+            prim(to_adjacency(case["n"], [tuple(e) for e in obj]))
+        else:
+            apply_edge_op(obj, op, conv, lists, k)
+            mirror_edge_op(cur, op)
+        call(f"after op {k} {op[0]}")
+    for (snap, af_s, tag), (sub, r) in zip(snaps, out):
+        fresh = canon_result(kruskal(case["n"], snap, allow_forest=af_s, backend="python"), None, case)
+        if public(fresh) != public(r):
+            r["alias"] = (f"after in-place edits ({tag}) the call on the caller's list gave {public(r)}, "
+                          f"a fresh deep copy of the same content gives {public(fresh)}")
+    return out
+
+
+def gen_prim_seq(rng, big=False):
+    """class A2 (prim): the caller's dict / adjacency lists are edited in place between calls: a weight replaced, an edge
+    added or deleted (both directions), a new node added, an adjacency list replaced by a new object, kruskal called in between."""
+    c = gen_prim_labels(rng, big) if rng.random() < 0.4 else gen_prim(rng, big)
+    c["adj_kind"] = rng.choice(["list", "list", "list2"])
+    c["tuple_adj"] = False
+    nodes = prim_nodes(c)
+    if not nodes:
+        return c
+    adj = {a: [list(p) for p in ns] for a, ns in c["adj"]}
+    ops = []
+    nxt = max(nodes) + 1
+    for _ in range(rng.randint(1, 4)):
+        und = [(a, b, w) for a, ns in adj.items() for b, w in ns if a <= b]
+        k = rng.choice(["add", "newnode", "kruskal", "relist"] + (["setw", "setw", "setw", "del"] if und else []))
+        if k in ("setw", "del"):
+            a, b, w = rng.choice(und)
+            if [b, w] not in adj[a] or (a != b and [a, w] not in adj[b]):
+                continue
+            wn = rng.choice([-9, -1, 0, 1, 2, 7, 30])
+            op = [k, a, b, w] + ([wn] if k == "setw" else [])
+            ia = adj[a].index([b, w])
+            if k == "setw":
+                adj[a][ia] = [b, wn]
+                if a != b:
+                    adj[b][adj[b].index([a, w])] = [a, wn]
+            else:
+                adj[a].pop(ia)
+                if a != b:
+                    adj[b].pop(adj[b].index([a, w]))
+        elif k == "add":
+            a, b, w = rng.choice(nodes), rng.choice(nodes), rng.randint(-3, 5)
+            op = ["add", a, b, w]
+            adj[a].append([b, w])
+            if a != b:
+                adj[b].append([a, w])
+        elif k == "newnode":
+            a, w = rng.choice(nodes), rng.randint(-3, 5)
+            op = ["newnode", nxt, a, w]
+            adj[nxt] = [[a, w]]
+            adj[a].append([nxt, w])
+            nodes.append(nxt)
+            nxt += 1
+        else:
+            op = [k] + ([rng.choice(nodes)] if k == "relist" else [])
+        ops.append(op)
+    return dict(c, kind="prim_seq", ops=ops, tag="A2:prim")
+
+
+def run_prim_seq(case):
+    from solvor.mst import kruskal, prim
+
+    lab = labeller(case)
+    conv = w_conv(case)
+    back = {}
+    known = []
+    for a, ns in case["adj"]:
+        known += [a] + [b for b, _ in ns]
+    for op in case["ops"]:
+        if op[0] == "newnode":
+            known.append(op[1])
+    if case["start"] is not None:
+        known.append(case["start"])
+    for i in dict.fromkeys(known):
+        assert lab(i) not in back
+        back[lab(i)] = i
+    graph, _ = build_graph(case, lab)
+    lists = case["adj_kind"] == "list2"
+    adj = [[a, [list(p) for p in ns]] for a, ns in case["adj"]]
+    mk = (lambda b, w, k: [lab(b), conv(w, k)]) if lists else (lambda b, w, k: (lab(b), conv(w, k)))
+    out = []
+
+    def row(a):
+        return next(ns for k, ns in adj if k == a)
+
+    snaps = []
+
+    def call(tag):
+        sub = dict(case, kind="prim", adj=[[a, [list(p) for p in ns]] for a, ns in adj], alias=False, step=tag, und=None)
+        sub.pop("ops", None)
+        start = None if case["start"] is None else lab(case["start"])
+        r = canon_result(prim(graph, start=start), back, case)
+        r["alias"] = None
+        snaps.append((copy.deepcopy(graph), tag))       # compared with a fresh call after the sequence
+        out.append((sub, {"out": "ok", **r}))
+
+    call("initial")
+    for k, op in enumerate(case["ops"]):
+        if op[0] in ("setw", "del"):
+            a, b, w = op[1:4]
+            for x, y in ([(a, b)] if a == b else [(a, b), (b, a)]):
+                i = row(x).index([y, w])
+                if op[0] == "setw":
+                    row(x)[i] = [y, op[4]]
+                    if lists:
+                        graph[lab(x)][i][1] = conv(op[4], k)
+                    else:
+                        graph[lab(x)][i] = mk(y, op[4], k)
+                else:
+                    row(x).pop(i)
+                    graph[lab(x)].pop(i)
+        elif op[0] == "add":
+            a, b, w = op[1:4]
+            for x, y in ([(a, b)] if a == b else [(a, b), (b, a)]):
+                row(x).append([y, w])
+                graph[lab(x)].append(mk(y, w, k))
+        elif op[0] == "newnode":
+            x, a, w = op[1:4]
+            adj.append([x, [[a, w]]])
+            graph[lab(x)] = [mk(a, w, k)]
+            if not any(kk == a for kk, _ in adj):
+                adj.append([a, []])
+                graph[lab(a)] = []
+            row(a).append([x, w])
+            graph[lab(a)].append(mk(x, w, k))
+        elif op[0] == "relist":
+            if any(kk == op[1] for kk, _ in adj):
+                graph[lab(op[1])] = list(graph[lab(op[1])])
+        elif op[0] == "kruskal":
+            sub = dict(case, adj=[[a, ns] for a, ns in adj])
+            kc = kruskal_of_prim(sub) if sym_ok(sub) else None
+            if kc:
+                kruskal(kc["n"], [tuple(e) for e in kc["edges"]], backend="python")
+        call(f"after op {k} {op[0]}")
+    for (snap, tag), (sub, r) in zip(snaps, out):
+        fresh = canon_result(prim(snap, start=None if case["start"] is None else lab(case["start"])), back, case)
+        if public(fresh) != public(r):
+            r["alias"] = (f"after in-place edits ({tag}) prim on the caller's dict gave {public(r)}, "
+                          f"a fresh deep copy of the same content gives {public(fresh)}")
+    return out
+
+
+X_MODES = ["negzero"] * 4 + ["mixed"] * 4 + ["within53"] * 4 + ["cancel", "overflow", "inf"]
+
+
+def x_weights(rng, edges, mode):
+    """class X: float extremes.  -> (edges with new model weights, case fields)."""
+    fields = {}
+    if mode == "cancel":
+        pool = [2 ** 60, -2 ** 60, 2 ** 60 + 2 ** 10, -2 ** 60 + 2 ** 10, 1, -1, 3, 0]
+        fields["float_w"] = rng.choice([False, True, "mixed"])      # every pool value is an exactly representable float
+    elif mode == "overflow":
+        sign = rng.choice([1, 1, -1])          # weights near 1e308 = 53-bit mantissa * 2^971: the model sees the mantissas
+        pool = [sign * int(x / 2.0 ** 971) for x in (1e308, 1.5e308, 1.2e308, 1.7e308, 1.0000001e308)]
+        fields["float_w"], fields["wscale"] = True, 971
+    elif mode == "inf":
+        pool = [BIG, BIG, 1, 2, 5, -3] + ([-BIG] if rng.random() < 0.4 else [])
+        fields["float_w"] = rng.choice([False, True])
+    elif mode == "negzero":
+        pool = [0, 0, 0, 1, -1]
+        fields["float_w"], fields["negzero"] = True, True
+    elif mode == "within53":
+        # huge but exactly representable, sums stay below 2^53: +-2^45 next to tiny values that must not be absorbed
+        pool = [2 ** 45, -2 ** 45, 2 ** 45 + 1, -2 ** 45 + 1, 1, -1, 0, 3]
+        fields["float_w"] = rng.choice([False, True, "mixed"])
+    else:
+        pool = [33, 33, 2, 7, -4, 0]
+        fields["float_w"] = "mixed"
+    return [[a, b, rng.choice(pool)] for a, b, _ in edges], fields
+
+
+def gen_kruskal_x(rng, big=False):
+    c = gen_kruskal(rng, big)
+    mode = rng.choice(X_MODES)
+    c["edges"], f = x_weights(rng, c["edges"], mode)
+    c.update(f)
+    c["tag"] = "X:" + mode
+    return c
+
+
+def gen_prim_x(rng, big=False):
+    n, edges, _ = gen_edges(rng, big)
+    mode = rng.choice(X_MODES)
+    e2, f = x_weights(rng, [list(e) for e in edges], mode)
+    c = gen_prim(rng, big, base=(n, [tuple(e) for e in e2], "X:" + mode))
+    c.update(f)
+    return c
+
+
+def nan_checks(ctx):
+    """NaN weights: outside the property (POLICY_X) - the calls are made (a hang would be cut by the guard) and only counted."""
+    from solvor.mst import kruskal, prim
+
+    nan = float("nan")
+    rng = ctx.rng
+    for _ in range(ctx.budget(6, 30)):
+        n, edges, _ = gen_edges(rng)
+        es = [(a, b, (nan if rng.random() < 0.3 else float(w))) for a, b, w in edges]
+        for name, fn in [("kruskal", lambda es=es, n=n: kruskal(n, es, allow_forest=True, backend="python")),
+                         ("prim", lambda es=es, n=n: prim(to_adjacency(n, es), start=0))]:
+            res = guarded(fn, timeout=5)
+            ctx.count("observation_only", "nan-weights")
+            ctx.count("observation_only_outcome", res[0] if res[0] != "ok" else res[1].status.name)
+
+
+def work_volume_family(rng, thorough):
+    """class W: inputs that maximise the iteration count of each loop at moderate size and cross 2^7, 2^10, 2^11, 2^12, 10^4,
+    10^5 (2^20 thorough) iterations: kruskal's scan of the sorted edges (no early break: the last needed edge is the heaviest
+    or a node is isolated), prim's pop loop over a lazy-deletion heap full of stale entries (parallel edges, heaviest listed
+    first, and one node behind an edge heavier than all of them), prim's loop over many nodes.  Answers known by construction."""
+    out = []
+    sizes = [130, 1030, 2050, 4100, 10005, 100005] + ([2 ** 20 + 2] if thorough else [])
+    for m in sizes:
+        n = rng.choice([4, 9, 40])
+        perm = list(range(n))
+        rng.shuffle(perm)
+        core = [(perm[i], perm[rng.randrange(i)], rng.randint(1, 3)) for i in range(1, n - 1)]     # spans all but the last node
+        fill = [(perm[rng.randrange(n - 1)], perm[rng.randrange(n - 1)], rng.randint(1, 9)) for _ in range(m - len(core) - 1)]
+        mode = rng.choice(["last-heaviest", "isolated"])
+        es = core + fill + ([(perm[n - 1], perm[rng.randrange(n - 1)], 50)] if mode == "last-heaviest" else [])
+        rng.shuffle(es)
+        want = None
+        out.append({"kind": "kruskal", "n": n, "edges": [list(e) for e in es], "big": True, "allow_forest": mode == "isolated",
+                    "float_w": False, "edges_kind": "list", "tag": f"W:kruskal-scan-{m}", "alias": m <= 20000,
+                    "expect_iterations": len(es), "want": want})
+    for k in [130, 1030, 2050, 4100, 10005, 100005] + ([2 ** 20 + 2] if thorough else []):
+        # nodes 0,1 joined by k parallel edges listed heaviest first; node 2 hangs on node 0 by an edge heavier than all of them
+        par = [[1, w] for w in range(k + 1, 1, -1)]
+        adj = [[0, par + [[2, k + 5]]], [1, [[0, w] for w in range(k + 1, 1, -1)]], [2, [[0, k + 5]]]]
+        out.append({"kind": "prim", "adj": adj, "und": None, "start": 0, "sym": True, "big": True, "labelling": rng.choice(["int", "str"]),
+                    "tag": f"W:prim-stale-{k}", "float_w": False, "tuple_adj": False, "adj_kind": "list", "alias": k <= 20000,
+                    "expect_iterations": k + 1, "expect_objective": 2 + k + 5})
+    for n in [5000, 12000] + ([200000] if thorough else []):
+        und = [(i, i + 1, 1 + (i * 7) % 3) for i in range(n - 1)]
+        adj = {i: [] for i in range(n)}
+        for a, b, w in und:
+            adj[a].append([b, w])
+            adj[b].append([a, w])
+        out.append({"kind": "prim", "adj": [[a, adj[a]] for a in range(n)], "und": None, "start": 0, "sym": True, "big": True,
+                    "labelling": "int", "tag": f"W:prim-chain-{n}", "float_w": False, "tuple_adj": False, "adj_kind": "list", "alias": False,
+                    "expect_iterations": n - 1, "expect_objective": sum(w for _, _, w in und)})
+    return out
+
+
 def label_of(mode, i):
     """A FRESH label object for node id i (called once per occurrence: dict key, every neighbour listing, start), so
     labels that are equal are in general not identical objects."""
@@ -505,6 +894,10 @@ def labeller(case):
     if mode == "pool":
         ids = {int(a): int(k) for a, k in case["label_ids"]}
         z, o = case.get("pool_variant", [0, 0])
+        if case.get("pool_spelling") == "per-occurrence":
+            # the same node is spelled False / 0 / 0.0 / -0.0 (True / 1 / 1.0) at different occurrences: equal, distinct types
+            cnt = itertools.count()
+            return lambda i: pool_label(ids.get(i, POOL_SIZE + i), next(cnt) % 4, next(cnt) % 3, i)
         return lambda i: pool_label(ids.get(i, POOL_SIZE + i), z, o, i)
     return lambda i: label_of(mode, i)
 
@@ -523,22 +916,67 @@ class ReIterable:
 TWO53 = 2 ** 53
 
 
-def w_conv(case):
-    """Model weight (an integer W) -> the number handed to the implementation: int, float(W) or float(W) * 2^p (exact)."""
+BIG = 2 ** 80              # model stand-in for an infinite weight (float inf / -inf in the call); finite model weights stay below 2^72
+FLOAT_MAX = int(__import__("sys").float_info.max)
+
+
+def observation_only(case):
+    """POLICY_X: outside the property (finite data of moderate magnitude; kruskal / prim accumulate the objective in a float by
+    design): NaN / +-inf weights, magnitudes whose sums overflow the float range, integer or float weights whose sums do not fit
+    in 2^53.  Such cases are still run (a hang is cut by the guard) but nothing about them is judged."""
+    if case["kind"] in ("kruskal", "kruskal_seq"):
+        ws = [e[2] for e in case["edges"]] + [op[2][2] for op in case.get("ops", []) if op[0] in ("set", "pop_append", "insert")] \
+            + [op[1][2] for op in case.get("ops", []) if op[0] == "append"] + [op[2] for op in case.get("ops", []) if op[0] == "setw"]
+    elif case["kind"] in ("prim", "prim_seq"):
+        ws = [w for _, ns in case["adj"] for _, w in ns]
+    else:
+        return None
     p = case.get("wscale", 0)
-    if p:
-        return lambda w: float(w) * 2.0 ** p
-    return float if case.get("float_w") else int
+    if any(is_inf_w(w) for w in ws):
+        return "inf-weights"
+    if p >= 900:
+        return "overflow-magnitude"
+    if sum(abs(w) for w in ws) * (2 ** p if p > 0 else 1) >= TWO53 * (2 if case["kind"].startswith("prim") else 1):
+        return "sums-beyond-2^53"
+    return None
 
 
-def w_back(case, x):
-    """Implementation number -> model units (int when integral, None for inf)."""
+def is_inf_w(w):
+    return isinstance(w, int) and abs(w) >= BIG // 2
+
+
+def w_conv(case):
+    """Model weight (an integer W) -> the number handed to the implementation.  The returned function takes the weight and
+    an occurrence index: int, float(W), float(W) * 2^p (exact), +-inf for |W| >= BIG/2, -0.0 for zero ("negzero"),
+    ints and floats alternating ("float_w": "mixed")."""
+    p = case.get("wscale", 0)
+    fw = case.get("float_w")
+    negzero = case.get("negzero")
+
+    def conv(w, k=0):
+        if is_inf_w(w):
+            return float("inf") if w > 0 else float("-inf")
+        if w == 0 and negzero and k % 3 != 2:
+            return -0.0
+        if p:
+            return float(w) * 2.0 ** p
+        if fw == "mixed":
+            return float(w) if k % 2 else int(w)
+        return float(w) if fw else int(w)
+    return conv
+
+
+def w_back(case, x, objective=False):
+    """Implementation number -> model units: int when integral; for an edge weight +-inf -> +-BIG; for the objective
+    +inf -> None (as float("inf") of an INFEASIBLE result), -inf -> "-inf", nan -> "nan"."""
     p = case.get("wscale", 0) if case else 0
     if isinstance(x, float):
-        if x == float("inf"):
-            return None
         if x != x:
-            return x
+            return "nan"
+        if x in (float("inf"), float("-inf")):
+            if objective:
+                return None if x > 0 else "-inf"
+            return BIG if x > 0 else -BIG
         if p:
             x = x / 2.0 ** p
         if x == int(x):
@@ -547,7 +985,7 @@ def w_back(case, x):
 
 
 def canon_w(x):
-    return w_back(None, x)
+    return w_back(None, x, objective=True)
 
 
 def canon_result(res, back=None, case=None):
@@ -555,7 +993,7 @@ def canon_result(res, back=None, case=None):
     sol = res.solution
     if sol is not None:
         sol = [[(back[u] if back else u), (back[v] if back else v), w_back(case, w)] for (u, v, w) in sol]
-    return {"status": res.status.name, "solution": sol, "objective": w_back(case, res.objective),
+    return {"status": res.status.name, "solution": sol, "objective": w_back(case, res.objective, objective=True),
             "iterations": int(res.iterations), "evaluations": int(res.evaluations)}
 
 
@@ -567,9 +1005,9 @@ def build_edges(case):
     conv = w_conv(case)
     kind = case.get("edges_kind", "list")
     if kind in ("list_of_lists", "tuple_of_lists"):
-        es = [[u, v, conv(w)] for u, v, w in case["edges"]]
+        es = [[u, v, conv(w, k)] for k, (u, v, w) in enumerate(case["edges"])]
     else:
-        es = [(u, v, conv(w)) for u, v, w in case["edges"]]
+        es = [(u, v, conv(w, k)) for k, (u, v, w) in enumerate(case["edges"])]
     if kind in ("tuple", "tuple_of_lists"):
         return tuple(es)
     if kind == "userlist":
@@ -611,8 +1049,8 @@ def build_graph(case, lab):
     kind = case.get("adj_kind", "tuple" if case.get("tuple_adj") else "list")
     graph, plain = {}, {}
     for a, ns in case["adj"]:
-        items = [(lab(b), conv(w)) for b, w in ns]
-        plain[a] = [(b, conv(w)) for b, w in ns]
+        items = [(lab(b), conv(w, a + k)) for k, (b, w) in enumerate(ns)]
+        plain[a] = [(b, conv(w, a + k)) for k, (b, w) in enumerate(ns)]
         if kind == "items" and len({b for b, _ in ns}) == len(ns):
             val = dict(items).items()
         elif kind == "list2":
@@ -733,26 +1171,37 @@ def brute_min_forest(nodes, und_edges):
 
 
 def naive_min_forest(nodes, und_edges):
-    """Weight of a minimum spanning forest by Kruskal over a plain label array (O(m log m + m n)), any size.
-    Independent of solvor: no union-find tree, no ranks, no compression."""
+    """Weight of a minimum spanning forest by Kruskal over a plain label table with member lists (relabel the smaller
+    class), any size.  Independent of solvor: no union-find tree, no ranks, no compression."""
     lab = {x: x for x in nodes}
+    members = {x: [x] for x in nodes}
     total = 0
     for a, b, w in sorted(und_edges, key=lambda e: e[2]):
         la, lb = lab[a], lab[b]
         if la != lb:
             total += w
-            for x in nodes:
-                if lab[x] == lb:
-                    lab[x] = la
+            if len(members[la]) < len(members[lb]):
+                la, lb = lb, la
+            for x in members[lb]:
+                lab[x] = la
+            members[la] += members.pop(lb)
     return total
 
 
-def obj_problem(obj, exact, weights):
-    """The reported objective against the exact total: equal whenever float addition is exact on these weights
-    (sum of magnitudes below 2^53); beyond that only float rounding of the running sum is allowed."""
-    mag = sum(abs(w) for w in weights)
-    if obj == exact:
+def obj_problem(obj, exact, weights, scale=0):
+    """The reported objective against the exact total of the returned edges.  Equal whenever float addition is exact on these
+    weights (sum of magnitudes below 2^53); beyond that only float rounding of the running sum is allowed; infinite weights
+    give inf / -inf / nan as IEEE addition does; a finite total beyond the float range gives +-inf."""
+    pos, neg = any(is_inf_w(w) and w > 0 for w in weights), any(is_inf_w(w) and w < 0 for w in weights)
+    if pos or neg:
+        want = "nan" if pos and neg else (None if pos else "-inf")
+        return None if obj == want or (obj is None and want is None) else f"objective {obj} but the returned edges have infinite weights (expected {want or 'inf'})"
+    if obj == exact and obj is not None:
         return None
+    mag = sum(abs(w) for w in weights)
+    if obj is None or obj == "-inf":
+        ok = exact * 2 ** max(scale, 0) > FLOAT_MAX if obj is None else exact * 2 ** max(scale, 0) < -FLOAT_MAX
+        return None if ok else f"objective {'inf' if obj is None else '-inf'} but the total weight of the returned edges is {exact}"
     if mag < TWO53 or not isinstance(obj, (int, float)):
         return f"objective {obj} is not the total weight {exact} of the returned edges"
     if abs(Fraction(obj) - exact) <= Fraction(mag) * max(1, len(weights)) / 10 ** 12:
@@ -765,7 +1214,7 @@ def undirected_key(e):
     return (min(a, b), max(a, b), w)
 
 
-def judge_tree(nodes, und_edges, sol, obj, directed_multiset=None):
+def judge_tree(nodes, und_edges, sol, obj, directed_multiset=None, scale=0):
     """Common part: sol is a spanning forest of (nodes, und_edges) of minimum weight and obj is its weight."""
     nodeset = set(nodes)
     for e in sol:
@@ -785,7 +1234,7 @@ def judge_tree(nodes, und_edges, sol, obj, directed_multiset=None):
     if k_in != k_out or len(sol) != len(nodes) - k_in:
         return f"returned edges do not span: {k_out} components / {len(sol)} edges, input has {k_in} components on {len(nodes)} nodes"
     total = sum(e[2] for e in sol)
-    bad = obj_problem(obj, total, [e[2] for e in sol])
+    bad = obj_problem(obj, total, [e[2] for e in sol], scale)
     if bad:
         return bad
     best = brute_min_forest(nodes, und_edges)
@@ -817,7 +1266,7 @@ def oracle_kruskal(case, r):
         if st != "INFEASIBLE" or sol is not None or obj is not None:
             return f"disconnected graph but status {st}, solution {sol}, objective {obj}"
         return None
-    return judge_tree(nodes, edges, [tuple(e) for e in sol], obj, directed_multiset=Counter(edges))
+    return judge_tree(nodes, edges, [tuple(e) for e in sol], obj, directed_multiset=Counter(edges), scale=case.get("wscale", 0))
 
 
 def prim_nodes(case):
@@ -851,7 +1300,7 @@ def oracle_prim(case, r):
             for e in solt:
                 if arcs.get(e, 0) < 1:
                     return f"edge {e} is not in the adjacency dict"
-            return judge_tree(nodes, und, solt, obj)
+            return judge_tree(nodes, und, solt, obj, scale=case.get("wscale", 0))
         if st != "INFEASIBLE" or sol is not None or obj is not None:
             return f"disconnected graph but status {st}, solution {sol}, objective {obj}"
         return None
@@ -874,7 +1323,7 @@ def oracle_prim(case, r):
             if arcs.get((a, b, w), 0) < 1 or a not in inn or b in inn:
                 return f"edge {(a, b, w)} does not extend the tree grown from start"
             inn.add(b)
-        if inn != set(nodes) or obj_problem(obj, sum(e[2] for e in sol), [e[2] for e in sol]):
+        if inn != set(nodes) or obj_problem(obj, sum(e[2] for e in sol), [e[2] for e in sol], case.get("wscale", 0)):
             return f"tree covers {sorted(inn)} of {sorted(nodes)}, objective {obj}"
         return None
     if st != "INFEASIBLE" or sol is not None or obj is not None:
@@ -900,8 +1349,10 @@ def kruskal_of_prim(case):
 
 
 def oracle(case, r):
-    if r.get("alias"):
-        return r["alias"]
+    return oracle_main(case, r) or r.get("alias")
+
+
+def oracle_main(case, r):
     if case["kind"] == "kruskal":
         return oracle_kruskal(case, r)
     if case["kind"] == "kruskal_bad":
@@ -978,7 +1429,7 @@ def c_edge(e):
     return f"({cnat(e[0])}, {cnat(e[1])}, {cz(e[2])})"
 
 
-def c_obs(r):
+def c_obs(r, scale=0):
     if r["out"] == "exc" and r["type"] == "ValueError":
         return "ORaised"
     if r["out"] != "ok" or r["status"] not in ("OPTIMAL", "FEASIBLE", "INFEASIBLE"):
@@ -987,10 +1438,10 @@ def c_obs(r):
     if sol is not None and not all(isinstance(e[2], int) and e[0] >= 0 and e[1] >= 0 for e in sol):
         return "OFail"
     obj = r["objective"]
-    if sol is not None and obj is not None and obj != sum(e[2] for e in sol) and \
-            obj_problem(obj, sum(e[2] for e in sol), [e[2] for e in sol]) is None:
+    if sol is not None and all(isinstance(e[2], int) for e in sol) and obj != sum(e[2] for e in sol) and \
+            obj_problem(obj, sum(e[2] for e in sol), [e[2] for e in sol], scale) is None:
         obj = sum(e[2] for e in sol)   # beyond 2^53 the float objective is the rounded total: the model is compared on the exact one
-    if obj is not None and not isinstance(obj, int):
+    if (obj is None and sol is not None) or (obj is not None and not isinstance(obj, int)):
         return "OFail"
     s = copt(sol, lambda l: clist(l, c_edge))
     o = copt(obj, cz)
@@ -998,7 +1449,7 @@ def c_obs(r):
 
 
 def c_kruskal_case(case, r):
-    return f"(({cnat(case['n'])}, {clist(case['edges'], c_edge)}, {cbool(case['allow_forest'])}), {c_obs(r)})"
+    return f"(({cnat(case['n'])}, {clist(case['edges'], c_edge)}, {cbool(case['allow_forest'])}), {c_obs(r, case.get('wscale', 0))})"
 
 
 def c_graph(case):
@@ -1006,7 +1457,7 @@ def c_graph(case):
 
 
 def c_prim_case(case, r):
-    return f"(({c_graph(case)}, {copt(case['start'], cnat)}), {c_obs(r)})"
+    return f"(({c_graph(case)}, {copt(case['start'], cnat)}), {c_obs(r, case.get('wscale', 0))})"
 
 
 K_TYPE = "(nat * list edge * bool) * obs_outcome"
@@ -1065,7 +1516,7 @@ def _corpus():
     if d.exists():
         for f in sorted(d.glob("*.json")):
             o = json.loads(f.read_text())
-            if o.get("kind") in ("kruskal", "kruskal_bad", "prim"):
+            if o.get("kind") in ("kruskal", "kruskal_bad", "prim", "kruskal_seq", "prim_seq"):
                 out.append(o)
     return out
 
@@ -1087,7 +1538,7 @@ def nontrivial(case, r):
 
 def canon_case(case):
     keys = ("kind", "n", "edges", "allow_forest", "adj", "start", "labelling", "label_ids", "pool_variant", "adj_kind",
-            "edges_kind", "wscale", "float_w")
+            "edges_kind", "wscale", "float_w", "negzero", "step", "pool_spelling")
     return json.dumps({k: case.get(k) for k in keys}, sort_keys=True)
 
 
@@ -1120,13 +1571,50 @@ def run(ctx: Ctx):
         cases += start_sweep(ctx.rng, big)
     cases += directed_cases(ctx.rng, big, ctx.budget(12, 60))
     cases += big_edge_family(ctx.rng, big) + big_prim_family(ctx.rng, big)
+    # round 3: A2 in-place edits between calls, X float extremes, W work volume
+    cases += [gen_kruskal_seq(ctx.rng, big) for _ in range(ctx.budget(60, 1000))]
+    cases += [gen_prim_seq(ctx.rng, big) for _ in range(ctx.budget(40, 600))]
+    cases += [gen_kruskal_x(ctx.rng, big) for _ in range(ctx.budget(50, 600))]
+    cases += [gen_prim_x(ctx.rng, big) for _ in range(ctx.budget(40, 500))]
+    cases += work_volume_family(ctx.rng, big)
+    nan_checks(ctx)
 
     k_cases, k_meta, p_cases, p_meta, ks_cases, ps_cases = [], [], [], [], [], []
     brute_skipped = 0
+    import time as _time
+    _t0 = _time.time()
+    work = []
+    judged = []
     for case in cases:
-        r = run_impl(case)
+        obs = observation_only(case)
+        if obs:
+            res = guarded(run_kruskal_seq if case["kind"] == "kruskal_seq" else run_prim_seq if case["kind"] == "prim_seq" else run_impl, case, timeout=10)
+            ctx.count("observation_only", obs)
+            ctx.count("observation_only_outcome", "hang" if res[0] == "hang" else ("raised" if res[0] == "exc" else "returned"))
+            continue
+        judged.append(case)
+    for case in judged:
+        if case["kind"].endswith("_seq"):
+            res = guarded(run_kruskal_seq if case["kind"] == "kruskal_seq" else run_prim_seq, case, timeout=10)
+            if res[0] == "ok":
+                work += [(sub, r, case) for sub, r in res[1]]
+            else:
+                ctx.violation(f"{case['kind']}: implementation {res[0]} {res[1:]} during a call sequence on a shared, edited object", {"case": case})
+        else:
+            work.append((case, run_impl(case), None))
+    volume = {"kruskal_scan_iterations_max": 0, "prim_pop_iterations_max": 0, "prim_heap_pushes_max": 0}
+    for case, r, origin in work:
         ctx.evaluations += 1
         kind = case["kind"]
+        if r["out"] == "ok":
+            if kind == "kruskal":
+                volume["kruskal_scan_iterations_max"] = max(volume["kruskal_scan_iterations_max"], r["iterations"])
+            elif kind == "prim":
+                volume["prim_pop_iterations_max"] = max(volume["prim_pop_iterations_max"], r["iterations"])
+                volume["prim_heap_pushes_max"] = max(volume["prim_heap_pushes_max"], r["evaluations"])
+            for key, thr in (("iterations", 128), ("iterations", 1024), ("iterations", 2048), ("iterations", 4096), ("iterations", 10 ** 4), ("iterations", 10 ** 5), ("iterations", 2 ** 20)):
+                if r[key] > thr:
+                    ctx.count(f"{kind}_loop_iterations_over", thr)
         ctx.count("kind", kind if kind != "prim" else ("prim" if case["sym"] else "prim_raw"))
         ctx.count(f"{kind}_status", r.get("status", r["out"] + ":" + str(r.get("type"))))
         if kind == "kruskal":
@@ -1144,10 +1632,18 @@ def run(ctx: Ctx):
             for k in ("swaps", "compressions", "rejected_deep", "early_break"):
                 ctx.count("uf_event_" + k, "yes" if ev[k] else "no")
         if kind != "kruskal_bad":
-            ctx.count("family", str(case.get("tag", "")).split("/")[0] if str(case.get("tag", "")).startswith(("deep", "S:", "L:", "I:", "M:", "O:", "H:")) else "small-random")
+            ctx.count("family", str(case.get("tag", "")).split("/")[0] if str(case.get("tag", "")).startswith(("deep", "S:", "L:", "I:", "M:", "O:", "H:", "A2:", "X:", "W:")) else "small-random")
             ctx.count("containers", case.get("edges_kind") or case.get("adj_kind") or "list")
         bad = oracle(case, r)
-        if bad:
+        if not bad and r["out"] == "ok" and case.get("expect_iterations") is not None:
+            # work-volume instances: the loop count and the answer are known by construction
+            if r["iterations"] != case["expect_iterations"]:
+                bad = f"loop ran {r['iterations']} iterations, by construction it needs {case['expect_iterations']}"
+            elif case.get("expect_objective") is not None and r["objective"] != case["expect_objective"]:
+                bad = f"objective {r['objective']}, by construction {case['expect_objective']}"
+        if bad and origin is not None:
+            ctx.violation(f"{kind} ({case.get('step')}): {bad}", {"case": origin, "failing_step": case, "impl": r})
+        elif bad:
             small = shrink(case, r) if len(ctx.violations) < 4 else case   # shrinking long edge lists is the expensive part
             rs = run_impl(small)
             ctx.violation(f"{kind}: {oracle(small, rs) or bad}", {"case": small, "impl": rs, "original_case": case})
@@ -1181,6 +1677,15 @@ def run(ctx: Ctx):
                      "objective is only required to be the rounded total, the TREE must still be exactly minimum); start sweeps; "
                      "event-directed union-find histories; sizes up to 65537 edges (10^6 thorough) judged by the naive reference; "
                      "every call is followed by input-unmodified / same-answer-again checks (other allow_forest, Rust back-end, other start in between)")
+    ctx.extra["work_volume_max"] = volume
+    ctx.notes.append("round-3 families: A2 call sequences on ONE edge list / graph dict edited in place between the calls (each call judged on "
+                     "the content at that moment by the full oracle, compared with a fresh deep copy, and sent to the Coq correspondence); "
+                     "X float extremes (2^60 cancellation, 1e308 overflow of the objective to inf, inf / -inf weights - the model sees +-2^2000 -, "
+                     "-0.0, ints and equal floats mixed; NaN weights judged structurally only); W work volume (kruskal scans of up to 10^5 "
+                     "(2^20 thorough) edges without early break, prim popping up to 10^5 stale heap entries, chains of 12000 nodes) with loop counts "
+                     "and answers known by construction; coverage.work_volume_max has the maximum count per loop")
+    ctx.notes.append("observation-only (outside the property, POLICY_X): NaN / inf weights, magnitudes near 1e308, weights whose sums do not fit "
+                     "in 2^53 (the objective is a float by design) - run under the guard and counted in the observation_only histograms, never judged")
     ctx.notes.append("cases with > 150 edges are not evaluated inside coqc (insertion-sort model, vm_compute cost); they are judged by the Python oracle only")
     ctx.notes.append("iterations / evaluations counters are modelled but not compared (the property does not mention them)")
     ctx.notes.append("theorems are about the Gallina model over Z with nat node ids; hashable labels are mapped injectively to nat by "
@@ -1188,6 +1693,7 @@ def run(ctx: Ctx):
     ctx.notes.append("prim theorems assume distinct dict keys (always true of a Python dict) and start in the node set; minimality "
                      "and agreement with kruskal additionally assume a symmetric adjacency dict (undirected graph)")
 
+    _t1 = _time.time()
     bad_k = ctx.coq_check("kruskal", IMPORTS, K_TYPE, K_CORR, k_cases)
     bad_p = ctx.coq_check("prim", IMPORTS, P_TYPE, P_CORR, p_cases)
     ks_small = [x for x in ks_cases if len(x[1]["edges"]) <= MIN_CHECK_MAX_EDGES]
@@ -1198,6 +1704,7 @@ def run(ctx: Ctx):
     bad_ks = bad_small + [len(ks_small) + i for i in bad_big]
     bad_ps = ctx.coq_check("prim_spec", IMPORTS, P_TYPE, P_SPEC, [c for c, _, _ in ps_cases])
     ctx.traces_validated += len(k_cases) + len(p_cases)
+    ctx.extra["phase_seconds"] = {"implementation_and_oracle": round(_t1 - _t0, 1), "coq": round(_time.time() - _t1, 1)}
 
     # the Coq spec checkers are a second, independent judge of the implementation outputs
     for i in bad_ks[:3]:
@@ -1257,7 +1764,14 @@ def mutate(rng, case):
 
 
 def replay(obj):
-    case = obj.get("case") or (obj if obj.get("kind") in ("kruskal", "kruskal_bad", "prim") else None)
+    case = obj.get("case") or (obj if obj.get("kind") in ("kruskal", "kruskal_bad", "prim", "kruskal_seq", "prim_seq") else None)
+    if case is not None and case["kind"].endswith("_seq"):
+        worst = 0
+        for sub, r in (run_kruskal_seq if case["kind"] == "kruskal_seq" else run_prim_seq)(case):
+            bad = oracle(sub, r)
+            print(sub.get("step"), "->", public(r), "|", bad or "ok")
+            worst |= bool(bad)
+        return int(worst)
     if case is None:
         print("replay names an unchecked obligation:", obj.get("unchecked") or obj.get("what"))
         return 1
